@@ -1,5 +1,6 @@
 SPECIFICATION Spec
 CONSTANTS
+  Sharing = "none"
   Depth = 6
   PoolMethods <- AllPoolMethods
 VIEW NoHist
